@@ -84,6 +84,11 @@ impl DodecahedronProjection {
 
     /// Unprojects face coordinates to spherical coordinates using dodecahedron projection
     pub fn inverse(&mut self, face: Face, origin_id: OriginId) -> Result<Spherical, String> {
+        // Reject an unknown origin before the memo is consulted: its slot index would alias a reflected slot
+        // of a valid origin, and the answer would depend on whether that slot happens to be filled
+        if (origin_id as usize) >= get_origins().len() {
+            return Err("Invalid origin ID".to_string());
+        }
         let polar = to_polar(face);
         let face_triangle_index = self.get_face_triangle_index(polar)?;
 
